@@ -81,6 +81,13 @@ CLAIMED["C07"] = (
     "DESIGN.md section 5 / C07",
 )
 
+CLAIMED["C06"] = (
+    "structural monitor over generated Dart: token-level extraction of keys, dispatch tables, enum tables, definitions and imports, compared with ground truth from encoding/json (compiled package) and go/types",
+    "dart.Generate runs on 1-3 source files per program under both root layouts; from the emitted files the harness extracts, per struct, the keys read/written and constructor arity; per union, the Kind/Data dispatch sets and implements clauses; per enum, the value list and wire table; and resolves every used name with Dart's import rules (duplicates, undefined, ambiguous, self import), plus one-file-per-package. Expected values come from json.Marshal in the compiled package, go/types and the reference model. Held on the programs produced.",
+    "Dart cannot be executed here (no SDK): only the extracted relations are decided. Trusted: harness/dartmodel extractor (unit-tested on the repo's samples).",
+    "DESIGN.md section 5 / C06",
+)
+
 NOT_YET = "check not built yet (work in progress, see DESIGN.md section 5 for the planned monitor)"
 NOT_APPLICABLE = {}
 
